@@ -171,6 +171,21 @@ func (x *Exec) call(st *State, call *ast.CallExpr) []Term {
 	}
 	x.anchorsHit["before@"+q] = true
 	x.anchorsHit["after@"+q] = true
+	// ghost statements anchored at a call may name its arguments as $a0, $a1, ... (evaluated before the call; the
+	// receiver of a method call is not counted)
+	wantArgs := false
+	for _, k := range []string{"before@" + q, "after@" + q} {
+		for _, gs := range x.ct.CallGhost[k] {
+			if strings.Contains(gs.Raw, "$a") {
+				wantArgs = true
+			}
+		}
+	}
+	if wantArgs {
+		for i, a := range call.Args {
+			st.ghost[fmt.Sprintf("$a%d", i)] = x.expr(st, a)
+		}
+	}
 	x.runGhost(st, x.ct.CallGhost["before@"+q], "before@"+q, call)
 	rs := x.callInner(st, call)
 	if gs := x.ct.CallGhost["after@"+q]; len(gs) > 0 {
@@ -181,6 +196,11 @@ func (x *Exec) call(st *State, call *ast.CallExpr) []Term {
 		x.runGhost(st, gs, "after@"+q, call)
 		for i := range rs {
 			delete(st.ghost, fmt.Sprintf("$r%d", i))
+		}
+	}
+	if wantArgs {
+		for i := range call.Args {
+			delete(st.ghost, fmt.Sprintf("$a%d", i))
 		}
 	}
 	return rs
